@@ -3,11 +3,14 @@
 //! K: the real `BuildRecord::validate`, `AppState::new` (= `BuildDatabase::from_file`),
 //!    `latest_build`, `tcp::handlers::handle_command`, the real TCP/HTTP servers on loopback,
 //!    `BpsvDocument::parse`, `RibbitClient::query`, `TactClient::query` against the Lean model
-//!    (`drv_c15`) line by line.
+//!    (`drv_c15`) line by line; `client`/`clientsum` lines are the model's `query (respond …)`,
+//!    `conn`/`storm`/`sched` lines its per-connection task (`connAnswer`, `srvRun`).
 //! O: for every product of every accepted database and every endpoint × transport, the document
 //!    the real client returns has exactly the rows the newest record dictates (computed here
 //!    independently); malformed requests get an error/closed connection and the server keeps
-//!    answering a probe client.
+//!    answering a probe client; every connection of an interleaved schedule (`sched`) is answered
+//!    what its own bytes are answered alone (sig `conn-not-isolated`), with the schedule's
+//!    unterminated connections still open.
 //!
 //! A case is one database: `begin`, `rec`…, `load`, then queries. Request lines are interpreted,
 //! so a case file can be replayed verbatim (`--replay`).
@@ -1105,7 +1108,7 @@ fn gen_sched(rng: &mut Rng, products: &[String], pending_read: bool, with_timeou
                 for seg in split(rng, &line) {
                     sc.push(format!("d{i}:{}", hex(&seg)));
                 }
-                if pending_read {
+                if pending_read && i == 0 {
                     // still pending while others are served; completed and read at the end
                     sc.push(format!("r{i}"));
                     sc.push(format!("d{i}:{}", hex(b"\n")));
